@@ -12,6 +12,7 @@ import (
 
 	"github.com/tetratelabs/wazero"
 	"github.com/tetratelabs/wazero/api"
+	"github.com/tetratelabs/wazero/experimental"
 	"github.com/tetratelabs/wazero/experimental/table"
 	"github.com/tetratelabs/wazero/verifharness/hx"
 )
@@ -81,7 +82,7 @@ func newRun(sc *Scenario, engine string) *run {
 	} else {
 		rc = wazero.NewRuntimeConfigInterpreter()
 	}
-	rc = rc.WithCoreFeatures(api.CoreFeaturesV2).WithMemoryLimitPages(sc.Limit)
+	rc = rc.WithCoreFeatures(api.CoreFeaturesV2|experimental.CoreFeaturesThreads).WithMemoryLimitPages(sc.Limit)
 	r := &run{sc: sc, engine: engine, ctx: ctx, rt: wazero.NewRuntimeWithConfig(ctx, rc), sid: sidCounter.Add(1),
 		byName: map[string]*live{}, probes: map[uint32]bool{0: true, 65535: true, 65536: true}}
 	orc.Askf("c04 new %d %s %s", r.sid, b01(engine == "compiler"), b01(f2AsIs))
